@@ -33,6 +33,7 @@ def run(rep):
     axischecks.forward_4tuple(rep, fnd, table, calls2.records, "C14")
     axischecks.inverse_4tuple(rep, fnd, table, calls2.records, "C14")
     axischecks.numeric_two_wavelets(rep, fnd, "C14", rep.tier)
+    axischecks.functional_forms(rep, fnd, "C14", rep.tier)
     from .. import scalechecks
     scalechecks.two_wavelets(rep, "C14", rep.tier)          # large inputs (size thresholds)
     rep.assumptions += ["bounded sizes / filter lengths (coverage.tlc_runs)", "pywt with a wavelet per axis is the named oracle"]
